@@ -17,7 +17,10 @@ Step(ev) ==
       [] ev.e = "PeerClose" -> q' = [q EXCEPT !.peerClosed = @ \cup {ev.k}] /\ UNCHANGED viol
       [] ev.e = "Call" /\ ev.k = "CloseA" -> q' = [q EXCEPT !.userClosed = @ \cup {"A"}] /\ UNCHANGED viol
       [] ev.e = "Call" /\ ev.k = "CloseB" -> q' = [q EXCEPT !.userClosed = @ \cup {"B"}] /\ UNCHANGED viol
-      [] ev.e = "Recv" -> q' = [q EXCEPT !.got[ev.k] = @ + ev.n] /\ Judge(ev, IF ev.k = "B" THEN RecvViol(ev.k, ev.n, ev.m) ELSE {})
+      [] ev.e = "Call" /\ ev.k = "CloseG" -> q' = [q EXCEPT !.userClosed = @ \cup {"G"}] /\ UNCHANGED viol
+      \* (slot-level harness) a read event dispatched to a connection whose descriptor has nothing to read and whose peer is open
+      [] ev.e = "Spurious" -> Judge(ev, {"C10.event_dispatched_to_another_connection"}) /\ UNCHANGED q
+      [] ev.e = "Recv" -> q' = [q EXCEPT !.got[ev.k] = @ + ev.n] /\ Judge(ev, IF ev.k = "B" \/ ev.err = "judge" THEN RecvViol(ev.k, ev.n, ev.m) ELSE {})
       [] ev.e = "Closed" -> q' = [q EXCEPT !.closed = @ \cup {ev.k}] /\ Judge(ev, ClosedViol(ev.k))
       [] ev.e = "Epilogue" -> Judge(ev, EpilogueViol(ev.n, ev.m)) /\ UNCHANGED q
       [] ev.e = "Panic" -> Judge(ev, {"C10.panic"}) /\ UNCHANGED q
